@@ -12,7 +12,9 @@ import (
 )
 
 func init() {
-	reg("(*math/big.Int).Append", func(fr *frame, fn *ssa.Function, args []Val) Val {
+	// (*big.Int).Append: merged into the core model (big.go), which also handles buffers with
+	// symbolic bytes and the opaque_int_text option; the concrete case here is its fallback.
+	c10BigAppend := func(fr *frame, fn *ssa.Function, args []Val) Val {
 		b := bigOf(fr, args[0])
 		base, ok := args[2].(int64)
 		if !b.isConc() || !ok {
@@ -20,7 +22,8 @@ func init() {
 		}
 		buf, _ := args[1].([]Val)
 		return appendVals(buf, strBytes(b.c.Text(int(base))))
-	})
+	}
+	bigAppendConcrete = c10BigAppend
 	part := func(den bool) intrinsic {
 		return func(fr *frame, fn *ssa.Function, args []Val) Val {
 			p, ok := args[0].(*Val)
